@@ -189,11 +189,11 @@ class Concurrent(Harness):
 
 
 def _le(a, b):
-    return z3.BoolVal(a <= b) if isinstance(a, int) and isinstance(b, int) else to_z3(a) <= to_z3(b)
+    return z3.BoolVal(a <= b) if isinstance(a, (int, float)) and isinstance(b, (int, float)) else to_z3(a) <= to_z3(b)
 
 
 def _ltz(a, b):
-    return z3.BoolVal(a < b) if isinstance(a, int) and isinstance(b, int) else to_z3(a) < to_z3(b)
+    return z3.BoolVal(a < b) if isinstance(a, (int, float)) and isinstance(b, (int, float)) else to_z3(a) < to_z3(b)
 
 
 def _before_in_log(log, x, y):
